@@ -114,6 +114,11 @@ def gen_jobspec(rng, max_tasks=16, shape=None, multi_edges=False, gpu=True, big_
                 reps = rng.randint(2, 3)
             elif rng.random() < 0.1:
                 reps = 2  # the same task (possibly the same dataset) consumed twice
+            if len(tasks[p]["outputs"]) > 1 and rng.random() < 0.25:
+                # several DIFFERENT outputs of one (generator) producer into one consumer: the consumer needs all of them
+                for o in rng.sample(tasks[p]["outputs"], rng.randint(2, min(3, len(tasks[p]["outputs"])))):
+                    srcs.append((p, o))
+                continue
             for _ in range(reps):
                 srcs.append((p, rng.choice(tasks[p]["outputs"])))
         # lay the inputs out over positional slots (with gaps and statics in between) and keyword params
